@@ -234,7 +234,7 @@ func wrapAll(e *tw.Expr, salt int) {
 
 func TestC01_RandomTrees(t *testing.T) {
 	c := harness.New(t, "C01", "random-trees",
-		"random typed expression trees to depth 5 over literals, data variables of every integer width / float32/64 / string / bool / nil / slices / maps / structs, unary - !, postfix ++ --, all binary operators, ternary, index, member access, calls of contract-trivial built-ins; ~15% with one injected fault (mixed types, /0, %0, unknown identifier, out-of-range literal, unknown function/property) on a certainly evaluated path. Each tree is printed in two layouts (minimal parentheses vs. random: full parentheses, redundant parentheses, random whitespace/newlines/CRLF) and both must render the reference value and agree with each other. Non-trivial: >= 2 operators of different classes and minimal != full parenthesisation, or a faulted tree. Distinct by hash of the minimal source + data.")
+		"random typed expression trees to depth 5 over literals, data variables of every integer width / float32/64 / string / bool / nil / slices / maps / structs, unary - !, postfix ++ --, all binary operators, ternary, index, member access, calls of contract-trivial built-ins; ~15% with one injected fault (mixed types, /0, %0, unknown identifier, out-of-range literal, unknown function/property) on a certainly evaluated path. Each tree is printed in two layouts (minimal parentheses vs. random: full parentheses, redundant parentheses, random whitespace/newlines/CRLF) and both must render the reference value and agree with each other; in one case of three the second layout stands 1..4 blocks deep (taken branches, one-pass loops). Non-trivial: >= 2 operators of different classes and minimal != full parenthesisation, or a faulted tree. Distinct by hash of the minimal source + data.")
 	defer c.Finish()
 	in := interp()
 	runRapid(t, c, 25000, 180000, func(rt *rapid.T) {
@@ -259,6 +259,27 @@ func TestC01_RandomTrees(t *testing.T) {
 		if !tw.RoundTrips(tree, nil) || !tw.RoundTrips(alt, lay) {
 			c.Class("harness:printer-roundtrip-mismatch")
 			return
+		}
+		if rapid.IntRange(0, 2).Draw(rt, "nested") == 0 {
+			// the same expression some blocks deep - inside branches that are taken and one-pass loops: what it
+			// reads is bound two, three or four blocks further out
+			open, shut := "", ""
+			for d := rapid.IntRange(1, 4).Draw(rt, "nestDepth"); d > 0; d-- {
+				switch rapid.IntRange(0, 3).Draw(rt, "nestKind") {
+				case 0:
+					open, shut = open+"@if(true)", "@end"+shut
+				case 1:
+					open, shut = open+"@if(false)n@else", "@end"+shut
+				case 2:
+					open, shut = open+fmt.Sprintf("@each(zzq%d in [%d])", d, d), "@end"+shut
+				default:
+					open, shut = open+fmt.Sprintf("@for(zzj%d = 0; zzj%d < 1; zzj%d++)", d, d, d), "@end"+shut
+				}
+			}
+			src2 = open + src2 + shut
+			if strings.HasPrefix(min, "{{") && strings.HasSuffix(min, "}}") {
+				c.Class("second-layout-nested-in-blocks")
+			}
 		}
 		cs := renderCase{Src: min, Src2: src2, Data: env.D, Want: wantFromRes(res), Note: fault}
 		kinds := map[string]bool{}
